@@ -345,6 +345,9 @@ func Templates() []Tpl {
 				[]any{OpCall, nativehashes.OracleContract.BytesBE(), "request", 15, []any{"https://x.y/z", nil, "other", nil, int64(gas / 10)}},
 			}))
 		}},
+		{"oracle-respond", func(w *World) ([]*transaction.Transaction, error) { // response to the oldest pending request
+			return one(OracleRespondTx(w.N))
+		}},
 		{"max-traceable", func(w *World) ([]*transaction.Transaction, error) {
 			return one(w.N.CallTx([]neotest.Signer{w.N.Committee}, pol, "setMaxTraceableBlocks", int64(w.N.BC.GetMaxTraceableBlocks()-1)))
 		}},
